@@ -65,6 +65,16 @@ type record struct {
 	epoch      uint32
 }
 
+// a block as handed to RecordBlock; committing it again uses the same header hash, header and body
+type blk struct {
+	hh           []byte
+	nonce, round uint64
+	epoch        uint32
+	tpls         []*mbTemplate
+	peerSeq      int
+	isNew        bool
+}
+
 type notif struct {
 	seenAtCall int // index of the OnNotarizedBlocks call that delivered it first
 	nonce      uint64
@@ -168,8 +178,8 @@ func shardName(s uint32) string {
 func main() {
 	_ = logger.SetLogLevel("*:NONE")
 	r := vk.Start("C46")
-	r.Rule("each case: self shard in {0,1,META}; 3..6 miniblock templates over a pool of 6..12 tx hashes (templates may share transactions), every template from or to the self shard; 12..45 operations: RecordBlock of a fresh header (competing height or next height, current epoch, body of 1..3 templates biased to already recorded ones), OnNotarizedBlocks with 1..2 meta blocks notarizing templates at source/destination/both (a fixed meta block per template and side, possibly delivered again), empty OnNotarizedBlocks, epoch +1 (rarely -1 = rollback over the boundary). After every operation every transaction seen so far is looked up. One evaluation = one lookup compared with the model. A template history is non-trivial when the miniblock was recorded at least twice or notarized; distinct = distinct (self kind, storer kind, direction, event sequence).")
-	r.Assume("the committed block of a miniblock is the last RecordBlock call containing it (the caller records blocks in commit order; a dropped block is never recorded again after its competitor)",
+	r.Rule("each case: self shard in {0,1,META}; 3..6 miniblock templates over a pool of 6..12 tx hashes (templates may share transactions), every template from or to the self shard; 12..45 operations: RecordBlock of a fresh header (competing height or next height, current epoch, body of 1..3 templates biased to already recorded ones) or, 1 in 4, of a block of the current epoch that was recorded before (A,B,A; A,B,C,A; A,A), OnNotarizedBlocks with 1..2 meta blocks notarizing templates at source/destination/both (a fixed meta block per template and side, possibly delivered again), empty OnNotarizedBlocks, epoch +1 (rarely -1 = rollback over the boundary). After every operation every transaction seen so far is looked up. One evaluation = one lookup compared with the model. A template history is non-trivial when the miniblock was recorded at least twice or notarized; distinct = distinct (self kind, storer kind, direction, event sequence).")
+	r.Assume("the committed block of a miniblock is the last RecordBlock call containing it (the caller records blocks in commit order; a block that was replaced may be committed and recorded again, with the same header, epoch and body)",
 		"bounded restatement of 'once the notarizing meta block has been seen': the notarization fields are demanded after one further OnNotarizedBlocks call (possibly empty) following both the notification and the latest record of the miniblock",
 		"every (miniblock, side) has one notarizing meta block; records use epochs inside the active window of the metadata storer; the storers are told about a new epoch before blocks of that epoch are recorded",
 		"sequential interleavings only (operation granularity); the asynchronous delivery of OnNotarizedBlocks in production is modelled by the arbitrary order of operations")
@@ -314,6 +324,17 @@ func runCase(r *vk.Run, c *vk.Case) {
 			return "never-recorded"
 		}
 		last := st.records[len(st.records)-1]
+		// the block that was committed last had been recorded before and replaced in between (A, B, A)
+		for i := len(st.records) - 2; i >= 0; i-- {
+			if !bytes.Equal(st.records[i].headerHash, last.headerHash) {
+				for _, rc := range st.records[:i] {
+					if bytes.Equal(rc.headerHash, last.headerHash) {
+						return "rerecord-of-earlier-header"
+					}
+				}
+				break
+			}
+		}
 		otherEpoch := false
 		for _, rc := range st.records[:len(st.records)-1] {
 			if rc.epoch == last.epoch && !bytes.Equal(rc.headerHash, last.headerHash) {
@@ -346,8 +367,8 @@ func runCase(r *vk.Run, c *vk.Case) {
 				// the tx index points to another miniblock than the one of the last block containing the tx
 				cl := causeClass(t)
 				key := "wrong-block class=tx-index"
-				if cl == "same-epoch-rerecord" {
-					key = "stale-block class=same-epoch-rerecord"
+				if cl == "same-epoch-rerecord" || cl == "rerecord-of-earlier-header" {
+					key = "stale-block class=" + cl
 				}
 				violation(key, fmt.Sprintf("%s: tx %s was last recorded in miniblock mb%d (header %s) but the lookup reports miniblock %x (header %s)", after, txs, t.id, exp.headerHash, md.MiniblockHash[:6], md.HeaderHash), detail(map[string]interface{}{"tx": txs}))
 				continue
@@ -355,7 +376,7 @@ func runCase(r *vk.Run, c *vk.Case) {
 			if !bytes.Equal(md.HeaderHash, exp.headerHash) || md.HeaderNonce != exp.nonce || md.Round != exp.round || md.Epoch != exp.epoch {
 				cl := causeClass(t)
 				key := "wrong-block class=" + cl
-				if cl == "same-epoch-rerecord" || cl == "cross-epoch-rerecord" {
+				if cl == "same-epoch-rerecord" || cl == "cross-epoch-rerecord" || cl == "rerecord-of-earlier-header" {
 					key = "stale-block class=" + cl
 				}
 				violation(key,
@@ -432,8 +453,8 @@ func runCase(r *vk.Run, c *vk.Case) {
 			if err != nil || e != exp.epoch {
 				cl := causeClass(t)
 				key := "epoch-by-hash class=" + cl
-				if cl == "same-epoch-rerecord" {
-					key = "stale-block class=same-epoch-rerecord" // same witness class, seen through GetEpochByHash
+				if cl == "same-epoch-rerecord" || cl == "rerecord-of-earlier-header" {
+					key = "stale-block class=" + cl // same witness class, seen through GetEpochByHash
 				}
 				violation(key, fmt.Sprintf("%s: GetEpochByHash(mb%d) = %d, %v; last recorded in epoch %d; records: %s", after, t.id, e, err, exp.epoch, fmtRecords(st.records)), detail(nil))
 			}
@@ -443,50 +464,73 @@ func runCase(r *vk.Run, c *vk.Case) {
 	nOps := rng.Range(12, r.N(45, 70))
 	maxEpoch := uint32(0)
 	bothContaining := map[int]uint32{}
+	var blocks []*blk
 	for op := 0; op < nOps; op++ {
 		what := ""
 		switch x := rng.Intn(100); {
 		case x < 50: // ---- RecordBlock
-			hdrSeq++
-			hh := []byte(fmt.Sprintf("hdr%d/e%d", hdrSeq, curEpoch))
-			if rng.Chance(1, 2) || hdrSeq == 1 {
-				height++
-			} // else a competing block at the same height
-			round += uint64(rng.Range(1, 3))
-			var hdr data.HeaderHandler
-			if self == meta {
-				hdr = &block.MetaBlock{Nonce: height, Round: round, Epoch: curEpoch}
-			} else {
-				hdr = &block.Header{Nonce: height, Round: round, Epoch: curEpoch, ShardID: self}
+			// either a fresh block, or a block that was recorded before and is committed again after its
+			// replacement was rolled back (same header hash, header and body; only blocks of the current epoch)
+			var b *blk
+			var cands []*blk
+			for _, q := range blocks {
+				if q.epoch == curEpoch {
+					cands = append(cands, q)
+				}
 			}
-			nMb := rng.Range(1, 3)
-			var chosen []*mbTemplate
-			used := map[int]bool{}
-			for len(chosen) < nMb {
-				var t *mbTemplate
-				// bias to templates that were already recorded (re-records)
-				if rng.Chance(3, 5) {
-					var rec []*mbTemplate
-					for _, q := range tpls {
-						if everRecorded[q.id] {
-							rec = append(rec, q)
+			if len(cands) > 0 && rng.Chance(1, 4) {
+				b = cands[rng.Intn(len(cands))]
+				if len(cands) > 1 && rng.Chance(2, 3) {
+					b = cands[rng.Intn(len(cands)-1)] // prefer one that is not the newest
+				}
+				r.Count("RecordBlock of a header recorded before", 1)
+			} else {
+				hdrSeq++
+				if rng.Chance(1, 2) || hdrSeq == 1 {
+					height++
+				} // else a competing block at the same height
+				round += uint64(rng.Range(1, 3))
+				b = &blk{hh: []byte(fmt.Sprintf("hdr%d/e%d", hdrSeq, curEpoch)), nonce: height, round: round, epoch: curEpoch, isNew: true}
+				nMb := rng.Range(1, 3)
+				used := map[int]bool{}
+				for len(b.tpls) < nMb {
+					var t *mbTemplate
+					// bias to templates that were already recorded (re-records)
+					if rng.Chance(3, 5) {
+						var rec []*mbTemplate
+						for _, q := range tpls {
+							if everRecorded[q.id] {
+								rec = append(rec, q)
+							}
+						}
+						if len(rec) > 0 {
+							t = rec[rng.Intn(len(rec))]
 						}
 					}
-					if len(rec) > 0 {
-						t = rec[rng.Intn(len(rec))]
+					if t == nil {
+						t = tpls[rng.Intn(len(tpls))]
 					}
-				}
-				if t == nil {
-					t = tpls[rng.Intn(len(tpls))]
-				}
-				if used[t.id] {
-					if len(used) == len(tpls) {
-						break
+					if used[t.id] {
+						if len(used) == len(tpls) {
+							break
+						}
+						continue
 					}
-					continue
+					used[t.id] = true
+					b.tpls = append(b.tpls, t)
 				}
-				used[t.id] = true
-				chosen = append(chosen, t)
+				if rng.Chance(1, 6) {
+					b.peerSeq = hdrSeq // a peer miniblock rides along; it is not indexed
+				}
+				blocks = append(blocks, b)
+			}
+			hh := b.hh
+			chosen := b.tpls
+			var hdr data.HeaderHandler
+			if self == meta {
+				hdr = &block.MetaBlock{Nonce: b.nonce, Round: b.round, Epoch: b.epoch}
+			} else {
+				hdr = &block.Header{Nonce: b.nonce, Round: b.round, Epoch: b.epoch, ShardID: self}
 			}
 			body := &block.Body{}
 			var names []string
@@ -498,25 +542,44 @@ func runCase(r *vk.Run, c *vk.Case) {
 				body.MiniBlocks = append(body.MiniBlocks, cp)
 				names = append(names, fmt.Sprintf("mb%d", t.id))
 			}
-			if rng.Chance(1, 6) {
-				// a peer miniblock rides along; it is not indexed
-				body.MiniBlocks = append(body.MiniBlocks, &block.MiniBlock{SenderShardID: meta, ReceiverShardID: core.AllShardId, Type: block.PeerBlock, TxHashes: [][]byte{[]byte(fmt.Sprintf("peer-%d", hdrSeq))}})
+			if b.peerSeq > 0 {
+				body.MiniBlocks = append(body.MiniBlocks, &block.MiniBlock{SenderShardID: meta, ReceiverShardID: core.AllShardId, Type: block.PeerBlock, TxHashes: [][]byte{[]byte(fmt.Sprintf("peer-%d", b.peerSeq))}})
 				names = append(names, "peer-mb")
 			}
 			err := repo.RecordBlock(append([]byte{}, hh...), hdr, body, nil, nil)
-			what = fmt.Sprintf("RecordBlock(%s nonce %d round %d epoch %d: %s)", hh, height, round, curEpoch, strings.Join(names, ","))
+			again := ""
+			if !b.isNew {
+				again = " [this block was recorded before and is committed again]"
+			}
+			what = fmt.Sprintf("RecordBlock(%s nonce %d round %d epoch %d: %s)%s", hh, b.nonce, b.round, b.epoch, strings.Join(names, ","), again)
 			logf("%s", what)
 			r.Count("RecordBlock", 1)
 			if err != nil {
 				violation("record-error", what+": "+err.Error(), detail(nil))
 			}
-			headerEpoch[string(hh)] = curEpoch
-			headerOrder = append(headerOrder, string(hh))
+			headerEpoch[string(hh)] = b.epoch
+			if b.isNew {
+				headerOrder = append(headerOrder, string(hh))
+			}
 			for _, t := range chosen {
 				st := states[t.id]
-				rc := record{opIdx: op, headerHash: hh, nonce: height, round: round, epoch: curEpoch, opIdx2call: onNotarizedCalls}
+				rc := record{opIdx: op, headerHash: hh, nonce: b.nonce, round: b.round, epoch: b.epoch, opIdx2call: onNotarizedCalls}
+				ev := fmt.Sprintf("R(e%d)", curEpoch)
 				if len(st.records) > 0 {
 					last := st.records[len(st.records)-1]
+					if !b.isNew {
+						ev = fmt.Sprintf("Rr(e%d)", curEpoch)
+						if bytes.Equal(last.headerHash, hh) {
+							r.Count("same block recorded twice in a row (per miniblock)", 1)
+						} else {
+							for _, pr := range st.records {
+								if bytes.Equal(pr.headerHash, hh) {
+									r.Count("re-record of an earlier header after its replacement (per miniblock)", 1)
+									break
+								}
+							}
+						}
+					}
 					if last.epoch == curEpoch {
 						r.Count("re-record same epoch", 1)
 					} else {
@@ -524,7 +587,7 @@ func runCase(r *vk.Run, c *vk.Case) {
 					}
 				}
 				st.records = append(st.records, rc)
-				st.events = append(st.events, fmt.Sprintf("R(e%d)", curEpoch))
+				st.events = append(st.events, ev)
 				everRecorded[t.id] = true
 				lastRecordCall[t.id] = onNotarizedCalls
 				for _, x := range t.txs {
@@ -660,6 +723,9 @@ func runCase(r *vk.Run, c *vk.Case) {
 			logf("%s", what)
 			continue
 		}
+		for _, q := range blocks {
+			q.isNew = false
+		}
 		checkAll("after op " + fmt.Sprint(op) + " " + what)
 	}
 	// a last empty notification call makes every delivered notification due
@@ -683,8 +749,12 @@ func runCase(r *vk.Run, c *vk.Case) {
 		ev := make([]string, 0, len(st.events))
 		ri := 0
 		for _, e := range st.events {
-			if strings.HasPrefix(e, "R(") {
-				ev = append(ev, fmt.Sprintf("R%+d", int(st.records[ri].epoch)-int(first)))
+			if strings.HasPrefix(e, "R(") || strings.HasPrefix(e, "Rr(") {
+				tag := "R"
+				if strings.HasPrefix(e, "Rr(") {
+					tag = "Rr" // a header recorded before
+				}
+				ev = append(ev, fmt.Sprintf("%s%+d", tag, int(st.records[ri].epoch)-int(first)))
 				ri++
 			} else {
 				ev = append(ev, e)
